@@ -516,6 +516,14 @@ func runWorldModeX(cfg *runCfg, name string, kf1 bool, live bool) error {
 			w = directedWorld(r, rep, cfg.seed*100000+3)
 			w.lazyReaderSweep()
 			rep.count("world:directed-lazy-reader-sweep")
+		} else if !kf1 && i == 4 {
+			w = directedWorld(r, rep, cfg.seed*100000+4, 1)
+			w.lockedView0Script()
+			rep.count("world:directed-locked-view0-script")
+		} else if !kf1 && i == 5 {
+			w = directedWorld(r, rep, cfg.seed*100000+5, 1)
+			w.doubleNewViewScript()
+			rep.count("world:directed-double-new-view-script")
 		} else {
 			w.run()
 		}
